@@ -62,12 +62,15 @@ def asI64 : J → Option Int
 
 end J
 
-/-- `str::parse::<u64>()` / `::<usize>()` on the canonical decimal keys the exports use:
-    only plain digit strings without sign are modelled -/
+/-- `str::parse::<u64>()`: an optional leading `+`, then at least one ASCII digit, nothing else
+    (leading zeros allowed); values above `u64::MAX` are an error -/
 def parseNat (s : String) : Option Nat :=
-  if s.isEmpty then none
-  else if s.toList.all Char.isDigit then
-    let n := s.toList.foldl (fun acc c => acc * 10 + (c.toNat - '0'.toNat)) 0
+  let ds := match s.toList with
+    | '+' :: rest => rest
+    | cs => cs
+  if ds.isEmpty then none
+  else if ds.all Char.isDigit then
+    let n := ds.foldl (fun acc c => acc * 10 + (c.toNat - '0'.toNat)) 0
     if n ≤ J.U64_MAX then some n else none
   else none
 
